@@ -11,7 +11,7 @@ use std::rc::Rc;
 pub static ENGINE: Engine = Engine {
     prop: "C19",
     level: "model_checking",
-    rule: "explicit-state BFS over ALL pairs (A,B) of subsets of the b-bit universe (b=2: 256 states, b=3: 65536); every state is rebuilt on real BDDSets in a fresh environment by replaying its BFS path from the empty pair; from every state every operation insert(X,e), union/intersect/complement(X,Y) with (X,Y) in {(A,B),(B,A),(A,A),(B,B)}, empty, universe and the query contains(X,e) is executed on the real sets and then membership of EVERY element of BOTH sets is asked forwards and backwards and compared with the reference masks; plus every operation sequence up to depth 4 (5) for b=2 and 3 (4) for b=3 on one long-lived pair without cloning; long insert/query patterns in which one 4-bit set sees all 16 elements; for b = 4 a representative of each of the 222 classes of subsets (under bit permutation / negation / complement) against ALL 65 536 subsets under union / intersect / difference in both operand positions; wider universes (b = 4..13, 15..17, 23..25, 31..33, 48, 63, 64): every sequence of <= 2 (3) operations with membership observed on a pool of six elements (0, 1, 2^(b-1), 2^b-1, ...) against a reference that tracks the pool and 'everything else'. distinct = distinct (state, operation) pairs executed + distinct long-lived sequences",
+    rule: "explicit-state BFS over ALL pairs (A,B) of subsets of the b-bit universe (b=2: 256 states, b=3: 65536); every state is rebuilt on real BDDSets in a fresh environment by replaying its BFS path from the empty pair; from every state every operation insert(X,e), union/intersect/complement(X,Y) with (X,Y) in {(A,B),(B,A),(A,A),(B,B)}, empty, universe and the query contains(X,e) is executed on the real sets and then membership of EVERY element of BOTH sets is asked forwards and backwards and compared with the reference masks; plus every operation sequence up to depth 4 (5) for b=2 and 3 (4) for b=3 on one long-lived pair without cloning; long insert/query patterns in which one 4-bit set sees all 16 elements; a long-running 16-bit environment (160 inserts, 14 000 queries, then operations on a set that is empty / the universe); for b = 4 a representative of each of the 222 classes of subsets (under bit permutation / negation / complement) against ALL 65 536 subsets under union / intersect / difference in both operand positions; wider universes (b = 4..13, 15..17, 23..25, 31..33, 48, 63, 64): every sequence of <= 2 (3) operations with membership observed on a pool of six elements (0, 1, 2^(b-1), 2^b-1, ...) against a reference that tracks the pool and 'everything else'. distinct = distinct (state, operation) pairs executed + distinct long-lived sequences",
     assumptions: &["reference = bit masks with the usual set operations; complement(X,Y) is set difference X \\ Y as the property states", "bounds: universe of 2^b elements with b <= 3, two sets, sequences on a long-lived pair up to depth 4"],
     max_shards: 64,
     run,
@@ -544,7 +544,81 @@ fn pairs_b4(ctx: &mut Ctx) {
     }
 }
 
+/// a long-running 16-bit environment: two sets share it; one receives 40 inserts and is asked
+/// thousands of membership questions (each builds nodes), then the OTHER set — still empty, later
+/// the universe, later emptied again — is operated on; everything is compared with reference sets
+fn big_environment(ctx: &mut Ctx) {
+    use std::collections::BTreeSet;
+    let c = json!({"part": "big-environment"});
+    ctx.begin_case(|| c.clone());
+    ctx.count("big_environment_histories", 1);
+    let r = guarded(|| -> Option<String> {
+        let env = Rc::new(BDDEnv::new());
+        let (a, b) = (BDDSet::with_env(16, &env), BDDSet::with_env(16, &env));
+        let (mut ra, mut rb): (BTreeSet<usize>, BTreeSet<usize>) = (BTreeSet::new(), BTreeSet::new());
+        let elem = |i: usize| (i * 40503 + 7) % 65536;
+        let ask = |s: &BDDSet, r: &BTreeSet<usize>, name: &str, upto: usize, step: usize| -> Option<String> {
+            for e in (0..upto).step_by(step) {
+                if s.contains(e) != r.contains(&e) {
+                    return Some(format!("contains({name}, {e}) answered {}, the reference says {}", !r.contains(&e), r.contains(&e)));
+                }
+            }
+            None
+        };
+        for round in 0..4usize {
+            for i in 0..40 {
+                b.insert(elem(i + 40 * round));
+                rb.insert(elem(i + 40 * round));
+            }
+            if let Some(m) = ask(&b, &rb, "B", 3500, 1) {
+                return Some(format!("round {round}: {m}"));
+            }
+            // A is empty / universe / emptied again / a small set when the environment is large
+            match round {
+                0 => {
+                    a.insert(7usize);
+                    ra.insert(7);
+                }
+                1 => {
+                    a.universe();
+                    a.complement(&b);
+                    ra = (0..65536).filter(|e| !rb.contains(e)).collect();
+                }
+                2 => {
+                    a.empty();
+                    a.union(&b);
+                    ra = rb.clone();
+                }
+                _ => {
+                    a.empty();
+                    a.intersect(&b);
+                    ra.clear();
+                    a.insert(65535usize);
+                    ra.insert(65535);
+                }
+            }
+            if let Some(m) = ask(&a, &ra, "A", 65536, 97).or_else(|| ask(&b, &rb, "B", 65536, 89)) {
+                return Some(format!("after round {round}: {m}"));
+            }
+            for e in rb.iter().chain(ra.iter().take(50)) {
+                if a.contains(*e) != ra.contains(e) || b.contains(*e) != rb.contains(e) {
+                    return Some(format!("after round {round}: membership of {e} is wrong"));
+                }
+            }
+        }
+        None
+    });
+    match r {
+        Err(p) => ctx.violation("C19 long 16-bit environment".to_string(), format!("panicked: {p}"), c),
+        Ok(Some(m)) => ctx.violation("C19 long 16-bit environment".to_string(), m, c),
+        Ok(None) => ctx.count("transitions", 20000),
+    }
+}
+
 fn run(ctx: &mut Ctx) {
+    if ctx.shard == 1 % ctx.nshards {
+        big_environment(ctx);
+    }
     pairs_b4(ctx);
     long_histories_b4(ctx);
     bfs(ctx, 2);
@@ -558,6 +632,10 @@ fn run(ctx: &mut Ctx) {
 }
 
 fn replay(ctx: &mut Ctx, case: &Value) {
+    if case["part"].as_str() == Some("big-environment") {
+        big_environment(ctx);
+        return;
+    }
     if case["part"].as_str() == Some("wide") {
         let ops: Vec<(u8, u8, u8)> = case["ops"].as_array().map(|a| a.iter().map(|o| (o[0].as_u64().unwrap_or(0) as u8, o[1].as_u64().unwrap_or(0) as u8, o[2].as_u64().unwrap_or(0) as u8)).collect()).unwrap_or_default();
         wide_history(ctx, case["bits"].as_u64().unwrap_or(8) as usize, &ops);
